@@ -60,3 +60,44 @@ Definition render_case (c : cfg) (ops : list sop) : string :=
 
 Definition render_cases (cases : list (cfg * list sop)) : string :=
   join nl (List.map (fun '(c, ops) => render_case c ops) cases).
+
+(* ---- system-call traces (C14, C03, C09, C20) ---- *)
+From BC Require Import Store.Trace.
+Definition show_fname (f : fname) : string :=
+  match f with FData i => show_N i ++ ".data" | FHint i => show_N i ++ ".hint" end.
+Definition show_call (c : syscall) : string :=
+  match c with
+  | SCreate f => "create " ++ show_fname f
+  | SWrite f b => "write " ++ show_fname f ++ " " ++ show_N (blen b) ++ ":" ++ show_N (blob_hash b)
+  | SFsync f => "fsync " ++ show_fname f
+  | SUnlink f => "unlink " ++ show_fname f
+  end.
+Definition show_trace (t : list syscall) : string := join ";" (List.map show_call t).
+
+Fixpoint run_traces (c : cfg) (s : st) (ops : list sop) : list string :=
+  match ops with
+  | [] => []
+  | Op o :: ops' => let '(s', _, t) := step c s o in show_trace t :: run_traces c s' ops'
+  | DropHints :: ops' =>
+    match open (drop_hints (s_dir s)) (s_clock s) with
+    | ROk (s', _, t) => show_trace t :: run_traces c s' ops'
+    | _ => "?" :: run_traces c s ops'
+    end
+  | _ :: ops' => "" :: run_traces c s ops'
+  end.
+
+Definition render_case_traces (c : cfg) (ops : list sop) : string :=
+  join nl ("create 0.data" :: run_traces c init ops).
+Definition render_cases_traces (cases : list (cfg * list sop)) : string :=
+  join nl (List.map (fun '(c, ops) => render_case_traces c ops) cases).
+
+(* the monitor on a given trace: "ok" or the index of the first rejected call *)
+Fixpoint disc_first_reject (maxsize : N) (m : mon) (tr : list syscall) (i : N) : option N :=
+  match tr with
+  | [] => None
+  | c :: tr' => match disc_step maxsize m c with Some m' => disc_first_reject maxsize m' tr' (i + 1)%N | None => Some i end
+  end.
+Definition render_monitor (maxsize : N) (tr : list syscall) : string :=
+  match disc_first_reject maxsize (mon_init []) tr 0 with None => "ok" | Some i => "reject@" ++ show_N i end.
+Definition render_monitors (cases : list (N * list syscall)) : string :=
+  join nl (List.map (fun '(mx, tr) => render_monitor mx tr) cases).
